@@ -119,6 +119,19 @@ Proof.
     simpl. constructor; [apply (obounds_within s (OV x) b a Hs Hi E)|apply IH; auto].
 Qed.
 
+Lemma opnd_bounds_within : forall s xs bs a, sstore s -> inst a s -> opnd_bounds s xs = Some bs ->
+  within_all bs (map (fun o => osem o a) xs).
+Proof.
+  intros s xs; induction xs as [|x r IH]; intros bs a Hs Hi H; cbn [opnd_bounds] in H.
+  - inversion H; constructor.
+  - destruct (obounds s x) as [b|] eqn:E; [|discriminate]. cbn [obind] in H.
+    destruct (opnd_bounds s r) as [br|] eqn:E2; [|discriminate]. cbn [obind] in H. inversion H; subst.
+    simpl. constructor; [apply (obounds_within s x b a Hs Hi E)|apply IH; auto].
+Qed.
+Definition sumo (xs : list opnd) (a : asg) : Z := fold_right (fun x acc => osem x a + acc) 0 xs.
+Lemma sumo_fold : forall xs a, sumo xs a = fold_right Z.add 0 (map (fun o => osem o a) xs).
+Proof. induction xs; intros; simpl; [reflexivity|rewrite <- IHxs; reflexivity]. Qed.
+
 (* the bounds `call` gives to the handle it returns (None: no handle, or a debug assertion fires) *)
 Definition route_bounds (s : store) (r : route) : option (Z * Z) :=
   match r with
@@ -132,6 +145,9 @@ Definition route_bounds (s : store) (r : route) : option (Z * Z) :=
   | RSum xs => do bs <- var_bounds s xs; Some (sum_bounds_l bs)
   | RBoolAnd _ | RBoolOr _ | RBoolNot _ | RBoolXor _ _ | RFAnd _ _ | RFOr _ _ | RFNot _ | RFXor _ _ | RBool2Int _ => Some (0, 1)
   | RFElement _ _ => Some (aux_lo, aux_hi)
+  | RArrMin xs => do bs <- var_bounds s xs; match bs with b0 :: br => Some (min_bounds b0 br) | [] => None end
+  | RArrMax xs => do bs <- var_bounds s xs; match bs with b0 :: br => Some (max_bounds b0 br) | [] => None end
+  | RSumIter xs => do bs <- opnd_bounds s xs; Some (sum_bounds_l bs)
   | _ => None
   end.
 
@@ -159,6 +175,12 @@ Definition route_vars (r : route) : list nat :=
   | RLinReif _ _ xs _ b => xs ++ [b]
   | RFElement arr i => arr ++ [i]
   | RCumulative st _ _ _ => st
+  | RArrMin xs | RArrMax xs => xs
+  | RSumIter xs => flat_map ovars xs
+  | RElement2D mat ri ci vl => concat mat ++ [ri; ci; vl]
+  | RElement3D cube di ri ci vl => concat (concat cube) ++ [di; ri; ci; vl]
+  | RTable2D mat _ => concat mat
+  | RTable3D cube _ => concat (concat cube)
   end.
 Definition rscoped (n : nat) (r : route) : Prop := forall x, In x (route_vars r) -> (x < n)%nat.
 
@@ -215,6 +237,16 @@ Proof.
     assert (Hlt : (b0 < length s)%nat) by (apply Hsc; simpl; auto).
     specialize (Hi b0 Hlt). unfold is_bool_dom in Hnb. rewrite forallb_forall in Hnb. specialize (Hnb _ Hi).
     unfold is01 in Hnb. apply orb_true_iff in Hnb. destruct Hnb as [E|E]; apply Z.eqb_eq in E; lia.
+  - (* array_int_minimum *) destruct (var_bounds s xs) as [bs|] eqn:E; [|discriminate]. simpl in Hb.
+    pose proof (var_bounds_within s xs bs a Hs Hi E) as W.
+    destruct xs as [|v0 rest]; [discriminate|]. inversion Hf; subst. simpl in W. inversion W; subst.
+    inversion Hb; subst. apply min_bounds_cover; assumption.
+  - (* array_int_maximum *) destruct (var_bounds s xs) as [bs|] eqn:E; [|discriminate]. simpl in Hb.
+    pose proof (var_bounds_within s xs bs a Hs Hi E) as W.
+    destruct xs as [|v0 rest]; [discriminate|]. inversion Hf; subst. simpl in W. inversion W; subst.
+    inversion Hb; subst. apply max_bounds_cover; assumption.
+  - (* sum_iter *) destruct (opnd_bounds s xs) as [bs|] eqn:E; [|discriminate]. simpl in Hb. inversion Hb; inversion Hf; subst.
+    fold (sumo xs a). rewrite sumo_fold. apply sum_bounds_cover. eapply opnd_bounds_within; eauto.
 Qed.
 
 (* ------------------------------------------------------------------------------------------ *)
@@ -392,6 +424,7 @@ Definition simple_ret (r : route) : bool :=
   | RAdd _ _ | RSub _ _ | RMul _ _ | RMod _ _ | RAbs _ | RSum _
   | RBoolAnd _ | RBoolOr _ | RBoolNot _ | RBoolXor _ _ | RFAnd _ _ | RFOr _ _ | RFNot _ | RFElement _ _ | RBool2Int _ => true
   | RMin (_ :: _) | RMax (_ :: _) => true
+  | RArrMin (_ :: _) | RArrMax (_ :: _) | RSumIter _ => true
   | _ => false
   end.
 Definition route_desc (r : route) (n : nat) : rdesc :=
@@ -409,6 +442,8 @@ Definition route_desc (r : route) (n : nat) : rdesc :=
   | RFAnd x y => PBand [x; y] n | RFOr x y => PBor [x; y] n
   | RFElement arr i => PElement arr i n
   | RBool2Int b => PB (PEq (VVar n) (VVar b))
+  | RArrMin xs => PMin xs n | RArrMax xs => PMax xs n
+  | RSumIter xs => PSum (map oview xs) n
   | _ => PAllDiff []
   end.
 
@@ -422,6 +457,8 @@ Qed.
 Lemma vsem_oview : forall o a, vsem (oview o) a = osem o a. Proof. destruct o; reflexivity. Qed.
 Lemma sum_sem_vars : forall xs a, sum_sem (map VVar xs) a = sumv xs a.
 Proof. induction xs; intros; simpl; [reflexivity|rewrite IHxs; reflexivity]. Qed.
+Lemma sum_sem_opnds : forall xs a, sum_sem (map oview xs) a = sumo xs a.
+Proof. induction xs; intros; simpl; [reflexivity|rewrite IHxs, vsem_oview; reflexivity]. Qed.
 
 Lemma b2z_tr : forall b, tr (b2z b) = b. Proof. destruct b; reflexivity. Qed.
 Lemma is01_cases : forall z, 0 <= z <= 1 -> z = 0 \/ z = 1. Proof. intros; lia. Qed.
@@ -478,6 +515,9 @@ Proof.
   - (* felement *) simpl. b2p. destruct (0 <=? a idx) eqn:E0; [|apply Z.leb_gt in E0; lia].
     destruct (nth_error arr (Z.to_nat (a idx))); [|discriminate]. b2p. f_equal. lia.
   - b2p. simpl. f_equal. lia.
+  - destruct xs as [|v0 rest]; [discriminate|]. unfold min_sem in H. b2p. simpl. f_equal. lia.
+  - destruct xs as [|v0 rest]; [discriminate|]. unfold max_sem in H. b2p. simpl. f_equal. lia.
+  - rewrite sum_sem_opnds in H. b2p. simpl. fold (sumo xs a). f_equal. lia.
 Qed.
 
 Lemma is01_b2z : forall b, is01 (b2z b) = true. Proof. destruct b; reflexivity. Qed.
@@ -507,6 +547,9 @@ Proof.
   - destruct (0 <=? a idx); [|discriminate]. destruct (nth_error arr (Z.to_nat (a idx))); [|discriminate].
     inversion H as [E]. simpl. apply Z.eqb_eq; reflexivity.
   - inversion H as [E]. apply Z.eqb_eq; reflexivity.
+  - destruct xs as [|v0 rest]; [discriminate|]. inversion H as [E]. unfold min_sem. apply Z.eqb_eq; lia.
+  - destruct xs as [|v0 rest]; [discriminate|]. inversion H as [E]. unfold max_sem. apply Z.eqb_eq; lia.
+  - inversion H as [E]. rewrite sum_sem_opnds. unfold sumo. apply Z.eqb_eq; lia.
 Qed.
 
 Lemma vscoped_oview : forall n o, (forall x, In x (ovars o) -> (x < n)%nat) -> vscoped n (oview o).
@@ -536,6 +579,8 @@ Proof.
   - assert (idx < n)%nat by (apply Hsc; apply in_or_app; right; simpl; auto). lia.
   - unfold vscoped; simpl. lia.
   - unfold vscoped; simpl. assert (b < n)%nat by (apply Hsc; auto). lia.
+  - apply Forall_forall. intros w Hw. apply in_map_iff in Hw. destruct Hw as [o [<- Ho]].
+    apply V. intros x Hx. apply in_flat_map. exists o; split; assumption.
 Qed.
 
 Lemma bool_args_sub : forall r x, In x (bool_args r) -> In x (route_vars r).
@@ -547,6 +592,14 @@ Qed.
 Lemma route_bounds_bool : forall s r b, route_bounds s r = Some b ->
   match r with RBoolAnd _ | RBoolOr _ | RBoolNot _ | RBoolXor _ _ | RFAnd _ _ | RFOr _ _ | RFNot _ => b = (0, 1) | _ => True end.
 Proof. intros s r b H; destruct r; simpl in *; try exact I; inversion H; reflexivity. Qed.
+
+Lemma sumo_agree : forall n a a' xs, agree n a a' -> (forall x, In x (flat_map ovars xs) -> (x < n)%nat) ->
+  sumo xs a' = sumo xs a.
+Proof.
+  intros n a a' xs Ha; induction xs as [|o r IH]; intro H; [reflexivity|]. simpl in *.
+  rewrite IH by (intros x Hx; apply H; apply in_or_app; right; exact Hx).
+  destruct o as [v|c]; simpl; [|reflexivity]. rewrite (Ha v); [reflexivity|]. apply H. simpl. auto.
+Qed.
 
 Lemma route_fun_agree : forall r n a a', rscoped n r -> agree n a a' -> route_fun r a' = route_fun r a.
 Proof.
@@ -575,6 +628,11 @@ Proof.
     destruct (0 <=? a idx); [|reflexivity]. destruct (nth_error arr (Z.to_nat (a idx))) as [x|] eqn:E; [|reflexivity].
     rewrite (Ha x); [reflexivity|]. apply Hsc. apply in_or_app; left. eapply nth_error_In; eauto.
   - rewrite (Ha b) by (apply Hsc; auto). reflexivity.
+  - destruct xs as [|v0 rest]; [reflexivity|]. rewrite (Ha v0) by (apply Hsc; simpl; auto).
+    rewrite (map_agree n a a' Ha rest) by (apply L; intros; simpl; auto). reflexivity.
+  - destruct xs as [|v0 rest]; [reflexivity|]. rewrite (Ha v0) by (apply Hsc; simpl; auto).
+    rewrite (map_agree n a a' Ha rest) by (apply L; intros; simpl; auto). reflexivity.
+  - f_equal. apply (sumo_agree n); assumption.
 Qed.
 
 (* ---- route_lower_denotes for the routes returning one result variable ---- *)
@@ -742,6 +800,9 @@ Proof.
   - destruct xs; [discriminate|congruence].
   - destruct xs; [discriminate|congruence].
   - apply Forall_forall. intros w Hw. apply in_map_iff in Hw. destruct Hw as [x [<- _]]. exact I.
+  - destruct xs; [discriminate|congruence].
+  - destruct xs; [discriminate|congruence].
+  - apply Forall_forall. intros w Hw. apply in_map_iff in Hw. destruct Hw as [x [<- _]]. apply view_ok_oview.
 Qed.
 Lemma direct_desc_ok : forall r, direct r = true -> desc_ok (direct_desc r).
 Proof.
@@ -1227,21 +1288,52 @@ Definition fixed_same (r : route) : bool :=
   | RFImplies _ _ | RFElement _ _ | RCumulative _ _ _ _ => false
   | RLinReif _ cs xs _ _ => Nat.eqb (length cs) (length xs)
   | RTable xs ts => table_okb xs ts
+  | RTable2D mat ts => forallb (fun row => table_okb row ts) mat
+  | RTable3D cube ts => forallb (forallb (fun row => table_okb row ts)) cube
   | _ => true
   end.
+Lemma filter_okb : forall (row : list nat) ts, table_okb row ts = true ->
+  filter (fun tp : list Z => Nat.eqb (length tp) (length row)) ts = ts.
+Proof.
+  intros row ts; induction ts as [|t r IH]; intro H; [reflexivity|]. simpl in *.
+  apply andb_true_iff in H. destruct H as [H1 H2]. rewrite H1. f_equal. apply IH; exact H2.
+Qed.
+Lemma st_tables_ok : forall rows ts st, forallb (fun row => table_okb row ts) rows = true ->
+  st_tables rows ts st = Some (st_tables_fixed rows ts st).
+Proof.
+  induction rows as [|row r IH]; intros ts st H; [reflexivity|]. simpl in *.
+  apply andb_true_iff in H. destruct H as [H1 H2]. rewrite H1. unfold st_tables_fixed. simpl.
+  rewrite (filter_okb row ts H1). apply IH; exact H2.
+Qed.
+Lemma st_tables3_ok : forall cube ts st, forallb (forallb (fun row => table_okb row ts)) cube = true ->
+  st_tables3 cube ts st = Some (fold_left (fun st mat => st_tables_fixed mat ts st) cube st).
+Proof.
+  induction cube as [|mat r IH]; intros ts st H; [reflexivity|]. simpl in *.
+  apply andb_true_iff in H. destruct H as [H1 H2]. rewrite (st_tables_ok mat ts st H1). simpl. apply IH; exact H2.
+Qed.
+Lemma table_okb_map : forall (f : nat -> nat) row ts, table_okb (map f row) ts = table_okb row ts.
+Proof. intros; unfold table_okb. rewrite map_length. reflexivity. Qed.
+Lemma rows_okb_map : forall (f : nat -> nat) ts rows,
+  forallb (fun row => table_okb row ts) (map (map f) rows) = forallb (fun row => table_okb row ts) rows.
+Proof. intros f ts rows; induction rows as [|row r IH]; [reflexivity|]. simpl. rewrite table_okb_map, IH. reflexivity. Qed.
+Lemma cube_okb_map : forall (f : nat -> nat) ts cube,
+  forallb (forallb (fun row => table_okb row ts)) (map (map (map f)) cube) = forallb (forallb (fun row => table_okb row ts)) cube.
+Proof. intros f ts cube; induction cube as [|m r IH]; [reflexivity|]. simpl. rewrite rows_okb_map, IH. reflexivity. Qed.
 Lemma call_fixed_same : forall r f m, fixed_same r = true -> call_fixed (rn_route f r) m = call (rn_route f r) m.
 Proof.
   intros r f m H; destruct r; try discriminate; try reflexivity; simpl in H.
   - simpl rn_route. unfold call_fixed. unfold table_okb in *. rewrite map_length. fold (table_okb xs tuples). 
     unfold table_okb. rewrite H. reflexivity.
   - simpl rn_route. unfold call_fixed. rewrite map_length, H. reflexivity.
+  - simpl rn_route. unfold call_fixed, call. rewrite st_tables_ok by (rewrite rows_okb_map; exact H). reflexivity.
+  - simpl rn_route. unfold call_fixed, call. rewrite st_tables3_ok by (rewrite cube_okb_map; exact H). reflexivity.
 Qed.
 Lemma rbuild_fixed_eq : forall prog, (forall r, In (SCall r) prog -> fixed_same r = true) ->
   rbuild_fixed prog = rbuild prog.
 Proof.
   intros prog. unfold rbuild_fixed, rbuild. generalize rs0. induction prog as [|s rest IH]; intros m H; simpl; [reflexivity|].
   assert (E : rexec_fixed s m = rexec s m).
-  { unfold rexec_fixed, rexec. destruct (rpanic m || rcallerr m); [reflexivity|]. destruct s; [reflexivity|].
+  { unfold rexec_fixed, rexec. destruct (rpanic m || rcallerr m); [reflexivity|]. destruct s; [reflexivity| |reflexivity].
     apply call_fixed_same. apply H. left; reflexivity. }
   rewrite E. apply IH. intros r Hr. apply H. right; exact Hr.
 Qed.
@@ -1277,3 +1369,338 @@ Lemma table_arity_fixed_witness :
   let m := rbuild_fixed [SB (SInt 0 3); SB (SInt 0 3); SCall (RTable [0%nat; 1%nat] [[1; 2; 3]; [1; 2]])] in
   rpanic m = false /\ rverr m = true /\ snd (rst m) = [PTable [0%nat; 1%nat] [[1; 2]]].
 Proof. vm_compute. repeat split; reflexivity. Qed.
+
+(* ------------------------------------------------------------------------------------------ *)
+(* 10. array_int_minimum / array_int_maximum / sum_iter, table_2d / table_3d, element_2d / element_3d,
+   the array factories *)
+
+(* array_int_minimum / array_int_maximum ARE min / max; Model::sum IS sum_iter over its handles *)
+Lemma arr_min_is_min : forall xs m, call (RArrMin xs) m = call (RMin xs) m. Proof. reflexivity. Qed.
+Lemma arr_max_is_max : forall xs m, call (RArrMax xs) m = call (RMax xs) m. Proof. reflexivity. Qed.
+Lemma opnd_bounds_vars : forall s xs, opnd_bounds s (map OV xs) = var_bounds s xs.
+Proof. intros s xs; induction xs as [|x r IH]; [reflexivity|]. cbn [map opnd_bounds var_bounds]. rewrite IH. reflexivity. Qed.
+Lemma sum_is_sum_iter : forall xs m, call (RSum xs) m = call (RSumIter (map OV xs)) m.
+Proof. intros xs m. unfold call. rewrite opnd_bounds_vars, map_map. reflexivity. Qed.
+Lemma arr_min_fun : forall xs a, route_fun (RArrMin xs) a = route_fun (RMin xs) a. Proof. reflexivity. Qed.
+Lemma arr_max_fun : forall xs a, route_fun (RArrMax xs) a = route_fun (RMax xs) a. Proof. reflexivity. Qed.
+Lemma sum_iter_fun : forall xs a, route_fun (RSumIter (map OV xs)) a = route_fun (RSum xs) a.
+Proof. intros xs a. simpl. f_equal. induction xs as [|x r IH]; [reflexivity|]. simpl. rewrite IH. reflexivity. Qed.
+
+(* ---- table_2d / table_3d: one Table per row; the posted propagators mean "every row is one of the tuples" ---- *)
+Lemma rsat_table_filter : forall row ts a,
+  rsat (PTable row (filter (fun tp => Nat.eqb (length tp) (length row)) ts)) a = row_in_table ts a row.
+Proof. intros. unfold rsat, row_in_table. simpl. apply table_filter_sem. Qed.
+
+Lemma st_tables_fixed_exact : forall rows ts st, lt_all (rnvars st) (concat rows) ->
+  fst (st_tables_fixed rows ts st) = fst st /\
+  rexact st (st_tables_fixed rows ts st) (fun a => forallb (row_in_table ts a) rows = true).
+Proof.
+  induction rows as [|row r IH]; intros ts st Hs.
+  - split; [reflexivity|]. eapply rexact_weaken; [|apply rexact_refl]. intros a _. simpl. tauto.
+  - unfold st_tables_fixed. simpl fold_left. fold (st_tables_fixed r ts (rpush (PTable row (filter (fun tp => Nat.eqb (length tp) (length row)) ts)) st)).
+    simpl in Hs. unfold lt_all in Hs. apply Forall_app in Hs. destruct Hs as [Hrow Hr].
+    set (p := PTable row (filter (fun tp => Nat.eqb (length tp) (length row)) ts)).
+    destruct (IH ts (rpush p st) Hr) as [E X]. split; [rewrite E; reflexivity|].
+    eapply rexact_weaken; [|eapply rexact_trans; [apply (rexact_push st p); exact Hrow|exact X]].
+    intros a _. simpl. unfold p. rewrite rsat_table_filter. rewrite andb_true_iff. tauto.
+Qed.
+
+Lemma st_tables3_fixed_exact : forall cube ts st, lt_all (rnvars st) (concat (concat cube)) ->
+  let st' := fold_left (fun st mat => st_tables_fixed mat ts st) cube st in
+  fst st' = fst st /\ rexact st st' (fun a => forallb (forallb (row_in_table ts a)) cube = true).
+Proof.
+  induction cube as [|mat r IH]; intros ts st Hs.
+  - split; [reflexivity|]. eapply rexact_weaken; [|apply rexact_refl]. intros a _. simpl. tauto.
+  - simpl in Hs. rewrite concat_app in Hs. unfold lt_all in Hs. apply Forall_app in Hs. destruct Hs as [Hm Hr].
+    destruct (st_tables_fixed_exact mat ts st Hm) as [E1 X1].
+    assert (Hn : rnvars (st_tables_fixed mat ts st) = rnvars st) by (unfold rnvars; rewrite E1; reflexivity).
+    simpl fold_left. destruct (IH ts (st_tables_fixed mat ts st)) as [E2 X2]; [rewrite Hn; exact Hr|].
+    split; [simpl in E2; rewrite E2, E1; reflexivity|].
+    eapply rexact_weaken; [|eapply rexact_trans; [exact X1|exact X2]].
+    intros a _. simpl. rewrite andb_true_iff. tauto.
+Qed.
+
+(* the call on the CURRENT tree: whatever the tuples' arities, no panic, NOTHING recorded, and the posted
+   propagators mean exactly the documented meaning of the call *)
+Theorem table2d_fixed_exact : forall mat ts m, rscoped (rnvars (rst m)) (RTable2D mat ts) ->
+  let m' := call_fixed (RTable2D mat ts) m in
+  rpanic m' = rpanic m /\ rverr m' = rverr m /\ rcallerr m' = rcallerr m /\ rpend m' = rpend m /\ ruser m' = ruser m /\
+  fst (rst m') = fst (rst m) /\
+  rexact (rst m) (rst m') (fun a => route_sem (RTable2D mat ts) 0%nat a = true).
+Proof.
+  intros mat ts m Hsc. simpl. repeat (split; [reflexivity|]).
+  assert (Hs : lt_all (rnvars (rst m)) (concat mat)) by (apply lt_all_of; intros x Hx; apply Hsc; exact Hx).
+  destruct (st_tables_fixed_exact mat ts (rst m) Hs) as [E X]. split; [exact E|exact X].
+Qed.
+Theorem table3d_fixed_exact : forall cube ts m, rscoped (rnvars (rst m)) (RTable3D cube ts) ->
+  let m' := call_fixed (RTable3D cube ts) m in
+  rpanic m' = rpanic m /\ rverr m' = rverr m /\ rcallerr m' = rcallerr m /\ rpend m' = rpend m /\ ruser m' = ruser m /\
+  fst (rst m') = fst (rst m) /\
+  rexact (rst m) (rst m') (fun a => route_sem (RTable3D cube ts) 0%nat a = true).
+Proof.
+  intros cube ts m Hsc. simpl. repeat (split; [reflexivity|]).
+  assert (Hs : lt_all (rnvars (rst m)) (concat (concat cube))) by (apply lt_all_of; intros x Hx; apply Hsc; exact Hx).
+  destruct (st_tables3_fixed_exact cube ts (rst m) Hs) as [E X]. split; [exact E|exact X].
+Qed.
+(* before e2596cd a malformed tuple fired Table::new's debug assertion *)
+Lemma table2d_prefix_panics : rpanic (rbuild [SB (SInt 0 2); SB (SInt 0 2); SCall (RTable2D [[0%nat; 1%nat]] [[0; 1; 2]; [1; 2]])]) = true.
+Proof. vm_compute. reflexivity. Qed.
+(* the finding: Model::table records a validation error for the same row and tuples, table_2d / table_3d do not *)
+Lemma table2d_arity_refuted : exists row ts decls,
+  kf_table_nd_arity (RTable2D [row] ts) = true /\ kf_table_nd_arity (RTable3D [[row]] ts) = true /\
+  rverr (rbuild_fixed (decls ++ [SCall (RTable row ts)])) = true /\
+  rverr (rbuild_fixed (decls ++ [SCall (RTable2D [row] ts)])) = false /\
+  rverr (rbuild_fixed (decls ++ [SCall (RTable3D [[row]] ts)])) = false /\
+  snd (rst (rbuild_fixed (decls ++ [SCall (RTable2D [row] ts)]))) = snd (rst (rbuild_fixed (decls ++ [SCall (RTable row ts)]))).
+Proof. exists [0%nat; 1%nat], [[0; 1; 2]; [1; 2]], [SB (SInt 0 2); SB (SInt 0 2)]. vm_compute. repeat split; reflexivity. Qed.
+
+(* ---- element_2d / element_3d ---- *)
+Lemma call_element_nd_shape : forall flat l r vl m,
+  call_element_nd flat (EAdd l r) vl m =
+  mkrs (fst (rst m) ++ [drange 0 (Z.of_nat (length flat) - 1)], snd (rst m) ++ [PElement flat (rnvars (rst m)) vl])
+       (rpend m ++ [CB (to_linear (CBin (EAdd l r) OEq (EVar (rnvars (rst m)))))]) (ruser m) (rpanic m) (rverr m) (rcallerr m).
+Proof. intros. unfold call_element_nd, post_base, rnew_var, with_st, rpush, post. simpl. rewrite !app_nil_r. reflexivity. Qed.
+
+(* what the lowered call enforces: the computed index is the value of the index expression, lies in
+   0 .. flat.len() - 1, and the flattened cell at it equals the value *)
+Definition element_nd_impl (flat : list nat) (e : expr) (vl n : nat) (a : asg) : Prop :=
+  exists k x, eval_expr e a = Some k /\ a n = k /\ 0 <= k /\ nth_error flat (Z.to_nat k) = Some x /\ a x = a vl.
+
+Theorem element_nd_exact : forall flat l r vl m cs xs k,
+  let e := EAdd l r in let n := rnvars (rst m) in
+  escoped n e -> lt_all n flat -> (vl < n)%nat ->
+  to_linear (CBin e OEq (EVar n)) = CLinInt cs xs OEq k ->
+  let m' := call_element_nd flat e vl m in
+  rpend m' = rpend m ++ [CB (CLinInt cs xs OEq k)] /\ ruser m' = ruser m /\ rpanic m' = rpanic m /\
+  rverr m' = rverr m /\ rcallerr m' = rcallerr m /\
+  rexact (rst m) (rmaterialize (CB (CLinInt cs xs OEq k)) (rst m')) (element_nd_impl flat e vl n).
+Proof.
+  intros flat l r vl m cs xs k e n He Hf Hv Hlin m'.
+  pose proof (call_element_nd_shape flat l r vl m) as Esh. fold e n in Esh. rewrite Hlin in Esh.
+  unfold m'. rewrite Esh. simpl rpend. simpl ruser. simpl rpanic. simpl rverr. simpl rcallerr.
+  repeat (split; [reflexivity|]).
+  set (st1 := (fst (rst m) ++ [drange 0 (Z.of_nat (length flat) - 1)], snd (rst m))).
+  assert (N1 : rnvars st1 = S n) by (unfold st1, rnvars; simpl; rewrite app_length; simpl; unfold n, rnvars; lia).
+  assert (Hsc : Forall (fun v => (v < S n)%nat) xs).
+  { pose proof (to_linear_scoped (S n) (CBin e OEq (EVar n))) as T. rewrite Hlin in T. apply T. simpl. split; [|lia].
+    clear -He. unfold e in *. assert (G : forall e0, escoped n e0 -> escoped (S n) e0).
+    { induction e0; simpl; intros; try tauto; try lia. } exact (G (EAdd l r) He). }
+  assert (X0 : rexact (rst m) st1 (fun a => In (a n) (drange 0 (Z.of_nat (length flat) - 1)))).
+  { pose proof (rexact_newvar (drange 0 (Z.of_nat (length flat) - 1)) (rst m)) as X. exact X. }
+  assert (X1 : rexact st1 (rpush (PElement flat n vl) st1) (fun a => rsat (PElement flat n vl) a = true)).
+  { apply rexact_push. rewrite N1. simpl. split; [eapply lt_all_le; [|exact Hf]; lia|]. split; lia. }
+  set (st2 := rpush (PElement flat n vl) st1) in *.
+  assert (X2 : rexact st2 (rpush (PB (lin_desc cs xs OEq k)) st2) (fun a => rsat (PB (lin_desc cs xs OEq k)) a = true)).
+  { apply rexact_push. change (rnvars st2) with (rnvars st1). rewrite N1. simpl. exact Hsc. }
+  assert (Emat : rmaterialize (CB (CLinInt cs xs OEq k)) st2 = rpush (PB (lin_desc cs xs OEq k)) st2).
+  { unfold rmaterialize, lift, rpush. simpl. reflexivity. }
+  change (rexact (rst m) (rmaterialize (CB (CLinInt cs xs OEq k)) st2) (element_nd_impl flat e vl n)). rewrite Emat.
+  eapply rexact_weaken; [|eapply rexact_trans; [exact X0|eapply rexact_trans; [exact X1|exact X2]]].
+  intros a _. simpl. unfold element_nd_impl. rewrite drange_In.
+  unfold rsat at 2. simpl. pose proof (lin_desc_sat cs xs OEq k a) as LS. 
+  assert (EV : eval_cons (CLinInt cs xs OEq k) a = eval_cons (CBin e OEq (EVar n)) a) by (rewrite <- Hlin; apply to_linear_correct).
+  simpl in EV. unfold rsat. simpl denote_route. 
+  assert (Hps : sat (denote_base (lin_desc cs xs OEq k)) a = psat (lin_desc cs xs OEq k) a).
+  { destruct (lin_desc cs xs OEq k) eqn:Ed; try reflexivity; simpl in Ed; discriminate. }
+  rewrite <- lin_val_combine. clear LS Hps.
+  set (ev := (do p <- eval_expr l a; do q <- eval_expr r a; Some (p + q))) in *.
+  split.
+  - intros [Hin [Hel Hl]]. simpl in Hel. apply andb_true_iff in Hel. destruct Hel as [H0 Hel]. apply Z.leb_le in H0.
+    destruct (nth_error flat (Z.to_nat (a n))) as [x|] eqn:En; [|discriminate]. apply Z.eqb_eq in Hel.
+    rewrite Hl in EV. destruct ev as [v|]; [|discriminate]. simpl in EV. inversion EV as [E2]. symmetry in E2. apply Z.eqb_eq in E2.
+    exists v, x. subst v. repeat split; auto.
+  - intros [v [x [Ee [Ean [H0 [En Hx]]]]]]. subst v.
+    assert (Hlt : (Z.to_nat (a n) < length flat)%nat) by (apply nth_error_Some; congruence).
+    split; [lia|]. split.
+    + simpl. apply andb_true_iff. split; [apply Z.leb_le; lia|]. rewrite En. apply Z.eqb_eq; exact Hx.
+    + rewrite Ee in EV. simpl in EV. rewrite Z.eqb_refl in EV. inversion EV as [E2]. rewrite E2. reflexivity.
+Qed.
+
+(* the two public calls in terms of the common tail *)
+Lemma element2d_call : forall mat ri ci vl m, mat_cols mat <> 0%nat ->
+  call (RElement2D mat ri ci vl) m = call_element_nd (concat mat) (idx2 ri ci (mat_cols mat)) vl m.
+Proof. intros mat ri ci vl m H. unfold call. apply Nat.eqb_neq in H. rewrite H. reflexivity. Qed.
+Lemma element3d_call : forall cube di ri ci vl m, cube_rows cube <> 0%nat -> cube_cols cube <> 0%nat ->
+  call (RElement3D cube di ri ci vl) m =
+  call_element_nd (concat (concat cube)) (idx3 di ri ci (cube_rows cube) (cube_cols cube)) vl m.
+Proof. intros cube di ri ci vl m H1 H2. unfold call. apply Nat.eqb_neq in H1, H2. rewrite H1, H2. reflexivity. Qed.
+(* the index equation is always stored as a linear equality (try_convert_to_linear_ast succeeds) *)
+Lemma idx2_linear : forall ri ci cols n, exists cs xs k, to_linear (CBin (idx2 ri ci cols) OEq (EVar n)) = CLinInt cs xs OEq k.
+Proof. intros. unfold idx2, to_linear. cbn [linform obind]. do 3 eexists. reflexivity. Qed.
+Lemma idx3_linear : forall di ri ci rows cols n, exists cs xs k, to_linear (CBin (idx3 di ri ci rows cols) OEq (EVar n)) = CLinInt cs xs OEq k.
+Proof. intros. unfold idx3, to_linear. cbn [linform obind]. do 3 eexists. reflexivity. Qed.
+
+(* element_2d, whole call + lowering of its pending equation: exactly "the cell of the FLATTENED matrix at
+   row * cols + col equals value" — the individual indices are not constrained *)
+Theorem element2d_lower_exact : forall mat ri ci vl m, mat_cols mat <> 0%nat ->
+  rscoped (rnvars (rst m)) (RElement2D mat ri ci vl) ->
+  let n := rnvars (rst m) in let m' := call (RElement2D mat ri ci vl) m in
+  exists c, rpend m' = rpend m ++ [CB c] /\ ruser m' = ruser m /\ rpanic m' = rpanic m /\ rverr m' = rverr m /\ rcallerr m' = rcallerr m /\
+    rexact (rst m) (rmaterialize (CB c) (rst m')) (element_nd_impl (concat mat) (idx2 ri ci (mat_cols mat)) vl n).
+Proof.
+  intros mat ri ci vl m Hc Hsc n m'. unfold m'. rewrite (element2d_call mat ri ci vl m Hc).
+  destruct (idx2_linear ri ci (mat_cols mat) n) as [cs [xs [k Hlin]]].
+  exists (CLinInt cs xs OEq k). unfold idx2 in *.
+  apply (element_nd_exact (concat mat) _ _ vl m cs xs k); try exact Hlin.
+  - simpl. repeat split; try exact I; apply Hsc; simpl; apply in_or_app; right; simpl; auto.
+  - apply lt_all_of. intros x Hx. apply Hsc. simpl. apply in_or_app; left; exact Hx.
+  - apply Hsc. simpl. apply in_or_app; right; simpl; auto.
+Qed.
+Theorem element3d_lower_exact : forall cube di ri ci vl m, cube_rows cube <> 0%nat -> cube_cols cube <> 0%nat ->
+  rscoped (rnvars (rst m)) (RElement3D cube di ri ci vl) ->
+  let n := rnvars (rst m) in let m' := call (RElement3D cube di ri ci vl) m in
+  exists c, rpend m' = rpend m ++ [CB c] /\ ruser m' = ruser m /\ rpanic m' = rpanic m /\ rverr m' = rverr m /\ rcallerr m' = rcallerr m /\
+    rexact (rst m) (rmaterialize (CB c) (rst m'))
+      (element_nd_impl (concat (concat cube)) (idx3 di ri ci (cube_rows cube) (cube_cols cube)) vl n).
+Proof.
+  intros cube di ri ci vl m Hr Hc Hsc n m'. unfold m'. rewrite (element3d_call cube di ri ci vl m Hr Hc).
+  destruct (idx3_linear di ri ci (cube_rows cube) (cube_cols cube) n) as [cs [xs [k Hlin]]].
+  exists (CLinInt cs xs OEq k). unfold idx3 in *.
+  apply (element_nd_exact (concat (concat cube)) _ _ vl m cs xs k); try exact Hlin.
+  - simpl. repeat split; try exact I; apply Hsc; simpl; apply in_or_app; right; simpl; auto.
+  - apply lt_all_of. intros x Hx. apply Hsc. simpl. apply in_or_app; left; exact Hx.
+  - apply Hsc. simpl. apply in_or_app; right; simpl; auto.
+Qed.
+
+(* on a rectangular matrix, a column index inside 0 .. cols - 1 makes the flattened reading the documented one *)
+Lemma nth_concat_rect : forall (mat : list (list nat)) cols r c, (0 < cols)%nat ->
+  Forall (fun row => length row = cols) mat -> (c < cols)%nat ->
+  nth_error (concat mat) (r * cols + c) = match nth_error mat r with Some row => nth_error row c | None => None end.
+Proof.
+  induction mat as [|row rest IH]; intros cols r c Hc Hall Hlt.
+  - simpl. destruct r; destruct (_ + c)%nat; reflexivity.
+  - inversion Hall as [|? ? Hrow Hrest]; subst. simpl concat. destruct r as [|r].
+    + simpl. apply nth_error_app1. lia.
+    + simpl nth_error at 2. rewrite nth_error_app2 by lia.
+      replace (S r * length row + c - length row)%nat with (r * length row + c)%nat by lia.
+      apply IH; auto.
+Qed.
+Lemma rect_Forall : forall mat, rect mat = true -> Forall (fun row => length row = mat_cols mat) mat.
+Proof. intros mat H. unfold rect in H. rewrite forallb_forall in H. apply Forall_forall. intros row Hr. apply Nat.eqb_eq. apply H; exact Hr. Qed.
+
+Theorem element2d_meaning : forall mat ri ci vl n a, mat_cols mat <> 0%nat -> rect mat = true ->
+  0 <= a ci < Z.of_nat (mat_cols mat) -> a n = a ri * Z.of_nat (mat_cols mat) + a ci ->
+  (element_nd_impl (concat mat) (idx2 ri ci (mat_cols mat)) vl n a <-> route_sem (RElement2D mat ri ci vl) 0%nat a = true).
+Proof.
+  intros mat ri ci vl n a Hc Hr Hci Hn. set (cols := mat_cols mat) in *.
+  unfold element_nd_impl, route_sem. simpl returns. cbv iota. unfold idx2. simpl eval_expr.
+  unfold mat_at, nth_z.
+  pose proof (rect_Forall mat Hr) as HF. fold cols in HF.
+  destruct (0 <=? a ri) eqn:E0.
+  - apply Z.leb_le in E0.
+    assert (Eidx : Z.to_nat (a ri * Z.of_nat cols + a ci) = (Z.to_nat (a ri) * cols + Z.to_nat (a ci))%nat) by nia.
+    assert (Hcl : (Z.to_nat (a ci) < cols)%nat) by lia.
+    pose proof (nth_concat_rect mat cols (Z.to_nat (a ri)) (Z.to_nat (a ci)) ltac:(lia) HF Hcl) as NC.
+    assert (E1 : (0 <=? a ci) = true) by (apply Z.leb_le; lia).
+    simpl obind. split.
+    + intros [k [x [Ek [Ean [H0 [En Hx]]]]]]. inversion Ek as [Ek']. rewrite <- Ek' in En. rewrite Eidx, NC in En.
+      destruct (nth_error mat (Z.to_nat (a ri))) as [row|]; [|discriminate]. simpl. rewrite E1, En. apply Z.eqb_eq; exact Hx.
+    + intro H. destruct (nth_error mat (Z.to_nat (a ri))) as [row|] eqn:Er; [|discriminate]. simpl in H. rewrite E1 in H.
+      destruct (nth_error row (Z.to_nat (a ci))) as [x|] eqn:Ex; [|discriminate]. apply Z.eqb_eq in H.
+      exists (a ri * Z.of_nat cols + a ci), x. repeat split; auto; try nia. rewrite Eidx, NC. reflexivity.
+  - apply Z.leb_gt in E0. simpl obind. split; [|discriminate].
+    intros [k [x [Ek [Ean [H0 _]]]]]. inversion Ek as [Ek']. exfalso. nia.
+Qed.
+
+(* ---- the finding: closed witnesses (the case lines of known_findings.txt, class element_nd_index) ---- *)
+Definition prog_2x2 (r c : Z) (call : route) : list rstmt :=
+  [SB (SInt 0 0); SB (SInt 0 0); SB (SInt 1 1); SB (SInt 0 0); SB (SInt r r); SB (SInt c c); SB (SInt 0 1); SCall call].
+(* matrix [[0, 0], [1, 0]], row 0, col 2: accepted with value 1 (it reads matrix[1][0]) *)
+Lemma element2d_index_refuted : exists prog r s ps a,
+  r = RElement2D [[0%nat; 1%nat]; [2%nat; 3%nat]] 4%nat 5%nat 6%nat /\ prog = prog_2x2 0 2 r /\
+  kf_element_nd_index r [[0]; [0]; [1]; [0]; [0]; [2]; [0; 1]] = true /\
+  lowered_of prog = Some (s, ps) /\ rvalidate s ps = None /\ inst a s /\ rallsatb ps a = true /\ route_sem r 0%nat a = false.
+Proof.
+  eexists; exists (RElement2D [[0%nat; 1%nat]; [2%nat; 3%nat]] 4%nat 5%nat 6%nat). do 2 eexists. exists (asgl [0; 0; 1; 0; 0; 2; 1; 2]).
+  split; [reflexivity|]. split; [reflexivity|]. split; [vm_compute; reflexivity|]. split; [vm_compute; reflexivity|].
+  split; [vm_compute; reflexivity|]. split; [|split; vm_compute; reflexivity].
+  intros v Hv. simpl in Hv. do 8 (destruct v as [|v]; [vm_compute; tauto|]). simpl in Hv; lia.
+Qed.
+(* row 1, col -1 reads matrix[0][1] *)
+Lemma element2d_negative_col_refuted : exists prog r s ps a,
+  r = RElement2D [[0%nat; 2%nat]; [1%nat; 3%nat]] 4%nat 5%nat 6%nat /\ prog = prog_2x2 1 (-1) r /\
+  lowered_of prog = Some (s, ps) /\ rvalidate s ps = None /\ inst a s /\ rallsatb ps a = true /\ route_sem r 0%nat a = false.
+Proof.
+  eexists; exists (RElement2D [[0%nat; 2%nat]; [1%nat; 3%nat]] 4%nat 5%nat 6%nat). do 2 eexists. exists (asgl [0; 0; 1; 0; 1; -1; 1; 1]).
+  split; [reflexivity|]. split; [reflexivity|]. split; [vm_compute; reflexivity|].
+  split; [vm_compute; reflexivity|]. split; [|split; vm_compute; reflexivity].
+  intros v Hv. simpl in Hv. do 8 (destruct v as [|v]; [vm_compute; tauto|]). simpl in Hv; lia.
+Qed.
+(* ragged [[x0], [x1, x2]]: row 2, col 0 reads x2 although matrix[2] does not exist; first row empty: the "dummy" arm *)
+Lemma element2d_ragged_refuted : exists prog r r' s ps a s' ps' a',
+  r = RElement2D [[0%nat]; [1%nat; 2%nat]] 4%nat 5%nat 6%nat /\ prog = prog_2x2 2 0 r /\
+  kf_element_nd_index r [[0]; [0]; [1]; [0]; [2]; [0]; [0; 1]] = true /\
+  lowered_of prog = Some (s, ps) /\ inst a s /\ rallsatb ps a = true /\ route_sem r 0%nat a = false /\
+  r' = RElement2D [[]; [2%nat; 3%nat]] 4%nat 5%nat 6%nat /\ kf_element_nd_dummy r' = true /\
+  lowered_of (prog_2x2 1 0 r') = Some (s', ps') /\ inst a' s' /\ rallsatb ps' a' = true /\ route_sem r' 0%nat a' = false.
+Proof.
+  eexists; exists (RElement2D [[0%nat]; [1%nat; 2%nat]] 4%nat 5%nat 6%nat), (RElement2D [[]; [2%nat; 3%nat]] 4%nat 5%nat 6%nat).
+  do 2 eexists. exists (asgl [0; 0; 1; 0; 2; 0; 1; 2]). do 2 eexists. exists (asgl [0; 0; 1; 0; 1; 0; 0]).
+  split; [reflexivity|]. split; [reflexivity|]. split; [vm_compute; reflexivity|]. split; [vm_compute; reflexivity|].
+  split; [intros v Hv; simpl in Hv; do 8 (destruct v as [|v]; [vm_compute; tauto|]); simpl in Hv; lia|].
+  split; [vm_compute; reflexivity|]. split; [vm_compute; reflexivity|]. split; [reflexivity|]. split; [vm_compute; reflexivity|].
+  split; [vm_compute; reflexivity|].
+  split; [intros v Hv; simpl in Hv; do 7 (destruct v as [|v]; [vm_compute; tauto|]); simpl in Hv; lia|].
+  split; vm_compute; reflexivity.
+Qed.
+(* element_3d, cube 2 x 2 x 2, depth 0, row 2, col 0: reads cube[1][0][0] *)
+Lemma element3d_index_refuted : exists prog r s ps a,
+  r = RElement3D [[[0%nat; 1%nat]; [2%nat; 3%nat]]; [[4%nat; 5%nat]; [6%nat; 7%nat]]] 8%nat 9%nat 10%nat 11%nat /\
+  prog = [SArr [2%nat; 2%nat; 2%nat] 0 1; SB (SInt 0 0); SB (SInt 2 2); SB (SInt 0 0); SB (SInt 0 1); SCall r] /\
+  lowered_of prog = Some (s, ps) /\ kf_element_nd_index r s = true /\ rvalidate s ps = None /\
+  inst a s /\ rallsatb ps a = true /\ route_sem r 0%nat a = false.
+Proof.
+  eexists; exists (RElement3D [[[0%nat; 1%nat]; [2%nat; 3%nat]]; [[4%nat; 5%nat]; [6%nat; 7%nat]]] 8%nat 9%nat 10%nat 11%nat).
+  do 2 eexists. exists (asgl [0; 0; 0; 0; 1; 0; 0; 0; 0; 2; 0; 1; 4]).
+  split; [reflexivity|]. split; [reflexivity|]. split; [vm_compute; reflexivity|]. split; [vm_compute; reflexivity|].
+  split; [vm_compute; reflexivity|]. split; [|split; vm_compute; reflexivity].
+  intros v Hv. simpl in Hv. do 13 (destruct v as [|v]; [vm_compute; tauto|]). simpl in Hv; lia.
+Qed.
+
+(* ---- array factories: n handles with the ORDERED bounds, whatever the nesting ---- *)
+Lemma repeat_m_S : forall n f m, repeat_m (S n) f m = repeat_m n f (f m). Proof. reflexivity. Qed.
+Lemma repeat_m_add : forall a b f m, repeat_m (a + b) f m = repeat_m b f (repeat_m a f m).
+Proof. induction a as [|a IH]; intros; [reflexivity|]. simpl. apply IH. Qed.
+Lemma repeat_m_mul : forall a b f m, repeat_m a (repeat_m b f) m = repeat_m (a * b) f m.
+Proof. induction a as [|a IH]; intros; [reflexivity|]. simpl. rewrite repeat_m_add. apply IH. Qed.
+Definition nprod (dims : list nat) : nat := fold_right Nat.mul 1%nat dims.
+Theorem exec_arr_flat : forall dims lo hi m, exec_arr dims lo hi m = repeat_m (nprod dims) (declare_r (arr_dom lo hi)) m.
+Proof.
+  induction dims as [|n r IH]; intros lo hi m; [reflexivity|].
+  destruct r as [|n2 r2].
+  - simpl. rewrite Nat.mul_1_r. reflexivity.
+  - change (exec_arr (n :: n2 :: r2) lo hi m) with (repeat_m n (exec_arr (n2 :: r2) lo hi) m).
+    assert (E : forall k m0, repeat_m k (exec_arr (n2 :: r2) lo hi) m0 = repeat_m k (repeat_m (nprod (n2 :: r2)) (declare_r (arr_dom lo hi))) m0).
+    { induction k as [|k IHk]; intro m0; [reflexivity|]. rewrite !repeat_m_S. rewrite (IH lo hi m0). apply IHk. }
+    rewrite E, repeat_m_mul. reflexivity.
+Qed.
+(* a factory declaration is the same as that many m.int declarations with the ordered bounds *)
+Lemma declare_r_is_int : forall lo hi m, rpanic m = false -> rcallerr m = false -> lo <= hi ->
+  rexec (SB (SInt lo hi)) m = declare_r (drange lo hi) m.
+Proof.
+  intros lo hi m Hp Hc _. unfold rexec. rewrite Hp, Hc. simpl. unfold exec_base, declare_r, declare, rnew_var, new_var, give, with_st. simpl.
+  rewrite !app_nil_r. destruct m as [[s ps] pe us pa ve ce]; simpl in *. subst. rewrite orb_false_r. reflexivity.
+Qed.
+Lemma arr_dom_ordered : forall lo hi, arr_dom lo hi = drange (Z.min lo hi) (Z.max lo hi).
+Proof.
+  intros lo hi. unfold arr_dom. destruct (lo <? hi) eqn:E.
+  - apply Z.ltb_lt in E. rewrite Z.min_l, Z.max_r by lia. reflexivity.
+  - apply Z.ltb_ge in E. rewrite Z.min_r, Z.max_l by lia. reflexivity.
+Qed.
+(* unlike Model::int, whose reversed bounds give the empty domain *)
+Lemma ints_swaps_bounds :
+  fst (rst (rbuild [SArr [2%nat] 3 1])) = [[1; 2; 3]; [1; 2; 3]] /\ fst (rst (rbuild [SB (SInt 3 1)])) = [[]].
+Proof. vm_compute. split; reflexivity. Qed.
+
+(* ---- behaviour after the PROPOSED repairs routes_table_nd_arity.patch / routes_element_nd_index.patch
+   (Model/Routes.v call_ext_fixed; NOT the current tree): the former witnesses ---- *)
+Lemma element2d_ext_fixed_rejects : exists s ps,
+  rlower (rbuild_ext_fixed (prog_2x2 0 2 (RElement2D [[0%nat; 1%nat]; [2%nat; 3%nat]] 4%nat 5%nat 6%nat))) = RLOk s ps /\
+  ps = [PB (PLeq (VConst 0) (VVar 5)); PB (PLeq (VVar 5) (VConst 1)); PElement [0%nat; 1%nat; 2%nat; 3%nat] 7 6; PB (PLinEq [2; 1; -1] [4%nat; 5%nat; 7%nat] 0)] /\
+  rallsatb ps (asgl [0; 0; 1; 0; 0; 2; 1; 2]) = false /\
+  rverr (rbuild_ext_fixed (prog_2x2 2 0 (RElement2D [[0%nat]; [1%nat; 2%nat]] 4%nat 5%nat 6%nat))) = true.
+Proof. do 2 eexists. split; [vm_compute; reflexivity|]. split; [reflexivity|]. split; vm_compute; reflexivity. Qed.
+Lemma table2d_ext_fixed_records :
+  rverr (rbuild_ext_fixed [SB (SInt 0 2); SB (SInt 0 2); SCall (RTable2D [[0%nat; 1%nat]] [[0; 1; 2]; [1; 2]])]) = true /\
+  rverr (rbuild_ext_fixed [SB (SInt 0 2); SB (SInt 0 2); SCall (RTable3D [[[0%nat; 1%nat]]] [[0; 1; 2]; [1; 2]])]) = true.
+Proof. vm_compute. split; reflexivity. Qed.
